@@ -134,6 +134,46 @@ def merge(times, wire, rt_offset=None):
     return ['b', False, fr(t) if t is not None else None, tag, out]
 
 
+# address objects that OUTLIVE main.reset(): created once, before any reset (every NRT case is a new "life" of the session)
+_GLOBAL_ADDR = NetAddr('127.0.0.1', 57110)
+_PREVIOUS_ADDR = [NetAddr('127.0.0.1', 57110)]
+
+
+def _pick_addrs(kind):
+    """-> the address objects a run sends through (round-robin)"""
+    fresh = NetAddr('127.0.0.1', 57110)
+    if MODE != 'nrt' or kind in (None, 'fresh'):
+        res = [fresh]
+    elif kind == 'global':
+        res = [_GLOBAL_ADDR]
+    elif kind == 'previous':
+        res = [_PREVIOUS_ADDR[0]]
+    elif kind == 'server':
+        from sc3.synth.server import Server
+        res = [Server.default.addr]
+    else:                                   # 'mixed': old and new address objects alternate
+        from sc3.synth.server import Server
+        res = [_GLOBAL_ADDR, fresh, Server.default.addr, _PREVIOUS_ADDR[0]]
+    _PREVIOUS_ADDR[0] = fresh
+    return res
+
+
+class _AddrRing:
+    def __init__(self, addrs):
+        self.addrs, self.i = addrs, 0
+
+    def _next(self):
+        a = self.addrs[self.i % len(self.addrs)]
+        self.i += 1
+        return a
+
+    def send_bundle(self, *a):
+        return self._next().send_bundle(*a)
+
+    def send_msg(self, *a):
+        return self._next().send_msg(*a)
+
+
 # ---------------------------------------------------------------- running a program
 class Run:
     def __init__(self, prog, mode, share=False):
@@ -144,13 +184,15 @@ class Run:
         self.mutations = []
         self.top_bounds = []
         self.closed = False
+        self.lost_sends = []
+        self.count_before = -1
         self.busy_rng = random.Random(len(json.dumps(prog)))
         self.events = []
         self.schedule = []      # rt: ['top', now] | ['wake', rid, now]
         self.nrout = 0
         self.nended = 0
         self.clocks = []
-        self.addr = NetAddr('127.0.0.1', 57110)
+        self.addr = _AddrRing(_pick_addrs(prog.get('addr')))
         self.last_dgram = None
         self.errors = []
         self.lock = main._main_lock
@@ -182,6 +224,11 @@ class Run:
         if self.mode == 'nrt':
             score = main._osc_interface._osc_score
             ent = max((x for x in score._scoreq._queue), key=lambda x: x[1])
+            if ent[1] <= self.count_before:
+                # the send returned normally but THIS life's score did not get an entry
+                self.lost_sends.append({'addr_kind': self.prog.get('addr', 'fresh'), 'at_logical_time': fr(main.current_tt._m_seconds),
+                                        'entries_in_this_lifes_score': len(score._scoreq._queue)})
+                return None
             entry = ent[2]
             wire = parse_packet(bytes(entry.msg[4:]))
             return merge(entry.bndl, wire)
@@ -200,6 +247,7 @@ class Run:
     def do_send(self, org, lat, es):
         T = main.current_tt._m_seconds if org is not None else None
         self.last_dgram = None
+        self.mark_score()
         before = main.elapsed_time() if (org is None and self.mode == 'rt') else None
         try:
             obj = self.elems_obj(es)
@@ -232,7 +280,12 @@ class Run:
         self.events.append(['sendmsg', org, fr(T), msg_id(wire[1], wire[2])])
         return True
 
+    def mark_score(self):
+        if self.mode == 'nrt':
+            self.count_before = max(x[1] for x in main._osc_interface._osc_score._scoreq._queue)
+
     def do_send_nrt_msg(self, org, m):
+        self.mark_score()
         T = main.current_tt._m_seconds
         try:
             self.addr.send_msg('/m', int(m))
@@ -390,7 +443,7 @@ def run_nrt(prog, share=False):
         for b, ch in zip(lst, chunks):
             sc.append(merge(b, parse_packet(ch)))
     return {'events': run.events, 'score': sc, 'raw_ok': ok_raw, 'elapsed': fr(main.elapsed_time()),
-            'errors': run.errors, 'nrout': run.nrout, 'nended': run.nended, 'mutations': run.mutations,
+            'errors': run.errors, 'nrout': run.nrout, 'nended': run.nended, 'mutations': run.mutations, 'lost_sends': run.lost_sends,
             'raw_len': len(raw), 'raw_hex': raw.hex() if len(raw) <= 4096 else None, 'chunk_lens': [len(c) for c in chunks]}
 
 
